@@ -32,6 +32,15 @@ HARD_BLOCKS = [
     "PUSH 21 DUP1 SDIV SLOAD", "PUSH 21 DUP1 DIV MLOAD", "PUSH 3 PUSH 7 SMOD", "PUSH %s PUSH 3 SIGNEXTEND" % BIG, "PUSH %s PUSH 1f BYTE" % BIG,
     "ASSIGNIMMUTABLE 5 PUSH 1 PUSH 2 ADD", "PUSH 0 SELFDESTRUCT POP JUMP",
 ]
+# constants between 2^16 and 2^40 as shift amounts / exponents / indices: the cost of folding must not grow with the
+# NUMBER written in the block (the obvious boundary values 2^256-1 fail fast; these are the ones that would allocate)
+for _op in ("SHL", "SHR", "SAR", "EXP", "SIGNEXTEND", "BYTE"):
+    for _c in ("10000", "1000000", "8000000", "80000000", "800000000", "8000000000"):
+        HARD_BLOCKS.append("PUSH 1 PUSH %s %s" % (_c, _op))
+        HARD_BLOCKS.append("PUSH 3 PUSH %s %s" % (_c, _op))
+        HARD_BLOCKS.append("PUSH %s PUSH 3 %s" % (_c, _op))
+for _c in ("10000", "8000000", "80000000"):
+    HARD_BLOCKS += ["PUSH %s PUSH 5 PUSH 7 ADDMOD" % _c, "PUSH 7 PUSH %s DUP1 MULMOD" % _c, "PUSH %s DUP1 MUL DUP1 MUL DUP1 MUL" % _c]
 
 
 def _one(params, text):
@@ -48,7 +57,8 @@ def _one(params, text):
         out.append({"old": old.to_plain(), "new": kept.to_plain(), "eq": bool(eq)})
     gasol.cleanup_process()
     return {"blocks": out, "cpu": time.process_time() - t0,
-            "rss_kb": resource.getrusage(resource.RUSAGE_SELF).ru_maxrss, "n_instr": len(text.split())}
+            "rss_kb": resource.getrusage(resource.RUSAGE_SELF).ru_maxrss,
+            "rss_growth_kb": resource.getrusage(resource.RUSAGE_SELF).ru_maxrss - r0, "n_instr": len(text.split())}
 
 
 def _contract(params, job):
@@ -125,9 +135,15 @@ def check(run):
             if st == "ok":
                 if val["cpu"] > worst[0]:
                     worst = (val["cpu"], txt)
-                if val["cpu"] > CPU_BUDGET or val["rss_kb"] > RSS_BUDGET_KB:
-                    run.report({"kind": "over-budget"}, "block needs %.1fs CPU / %d kB: %s" % (val["cpu"], val["rss_kb"], txt[:200]),
-                               {"block": txt, "options": opts, "cpu_s": val["cpu"], "rss_kb": val["rss_kb"]}, True)
+                n = val.get("n_instr", len(txt.split()))
+                # budget proportional to the block: more than ten times what the slowest generated block of that size needs
+                cpu_b = min(CPU_BUDGET, 2.0 + 0.25 * n)
+                grow_b = 100000 + 5000 * n
+                if val["cpu"] > cpu_b or val["rss_kb"] > RSS_BUDGET_KB or val.get("rss_growth_kb", 0) > grow_b:
+                    run.report({"kind": "over-budget"}, "block of %d instructions needs %.1fs CPU (budget %.1f) / peak %d kB, growth %d kB (budget %d): %s" % (
+                                   n, val["cpu"], cpu_b, val["rss_kb"], val.get("rss_growth_kb", 0), grow_b, txt[:200]),
+                               {"block": txt, "options": opts, "cpu_s": val["cpu"], "rss_kb": val["rss_kb"],
+                                "rss_growth_kb": val.get("rss_growth_kb", 0), "budget": {"cpu_s": cpu_b, "rss_growth_kb": grow_b}}, True)
                 continue
             kind = {"exc": "exception-escapes-block-pipeline", "timeout": "does-not-terminate-in-budget",
                     "memory": "memory-budget-exceeded", "crash": "worker-crashed"}.get(st, st)
@@ -146,7 +162,8 @@ def check(run):
         paths = []
         for k in range(2 if quick else 6):
             p = os.path.join(work, "synth%d.json_solc" % k)
-            docgen.dump(docgen.document(rng.getrandbits(32), nblocks=rng.randint(5, 9), with_noasm=(k % 2 == 0), max_len=14), p)
+            docgen.dump(docgen.document(rng.getrandbits(32), nblocks=rng.randint(5, 9), with_noasm=(k % 2 == 0), max_len=14,
+                                        multi_data=(k % 2 == 1), failing=(k % 3 == 0)), p)
             paths.append(p)
         shipped = sorted(glob.glob(os.path.join(common.REPO, "examples", "jsons-solc", "*.json_solc")), key=os.path.getsize)
         paths += shipped[:1 if quick else 3]
